@@ -490,6 +490,7 @@ type imgInfo struct {
 	linkGrps  []uint32
 	dts       []int32
 	ociDigest [][]byte
+	twoPrims  bool // more than one partition is marked primary (another writer's image, or raw partition records)
 }
 
 func inspect(f *sif.FileImage) imgInfo {
@@ -514,6 +515,9 @@ func inspect(f *sif.FileImage) imgInfo {
 		if d.DataType() == sif.DataPartition {
 			in.parts = append(in.parts, d.ID())
 			if _, pt, _, err := d.PartitionMetadata(); err == nil && pt == sif.PartPrimSys {
+				if in.hasPrim {
+					in.twoPrims = true
+				}
 				in.hasPrim = true
 			} else if err == nil && pt == sif.PartSystem {
 				in.sysParts = append(in.sysParts, d.ID())
@@ -733,7 +737,11 @@ func (g *Gen) nextOp(f *sif.FileImage) *Op {
 		return op
 	case x < 74:
 		op := &Op{Kind: "setprim", T: g.topt()}
-		if len(in.parts) > 0 && (!reject || r.Chance(1, 2)) {
+		if in.twoPrims && len(in.sysParts) > 0 && r.Chance(2, 3) {
+			// promoting a system partition while two partitions are marked primary: refused
+			op.ID = pick(r, in.sysParts)
+			g.count("op:setprim-with-two-primaries")
+		} else if len(in.parts) > 0 && (!reject || r.Chance(1, 2)) {
 			// any partition: system ones are promoted, data/overlay ones refused, the primary one is a no-op
 			op.ID = pick(r, in.parts)
 		} else {
